@@ -181,6 +181,34 @@ PartReadProg(why) ==
                  Ln(50, <<ReadSt(<<"J">>), Prt(V("J")), EndS>>), handler>>,
                [kind |-> "partread", expect |-> <<6, 0, 1, 0, 40000, 3>>])
 PartReadFamily == {PartReadProg(why) : why \in {"ood", "ovf"}}
+\* READ into string variables: any item is taken as written; a name without type sign is the string variable while DEFSTR is in
+\* force for it and the numeric one otherwise, decided when the READ executes (round-3 seeded change C22c looked at the written
+\* sign only).  Item NonNum(n) is the non-numeric text that carries the number n.
+PS(lines, tag) == [lines |-> lines, vars |-> <<"I", "J", "A", "K%", "S!", "S$", "T$">>, ints |-> <<"K%", "FNK%">>,
+                   strs |-> <<"S$", "T$">>, bare |-> <<[n |-> "S", i |-> "S%", f |-> "S!", s |-> "S$"]>>, tag |-> tag]
+NonNum(n) == [num |-> FALSE, v |-> n]
+Num(n) == [num |-> TRUE, v |-> n]
+DataItems(its) == [op |-> "DATA", items |-> its, col |-> TRUE]
+DefStr(t, ns) == [op |-> "DEFTYPE", t |-> t, ns |-> ns, col |-> TRUE]
+StrReadProg(how) ==
+    IF how = "defstr"
+    THEN PS(<<Ln(10, <<DataItems(<<Num(5), NonNum(7), Num(9)>>)>>),
+              Ln(20, <<DefStr("$", <<"S">>)>>),
+              Ln(30, <<ReadSt(<<"S", "T$">>), Prt(V("S")), Prt(V("T$"))>>),
+              Ln(40, <<DefStr("!", <<"S">>)>>),
+              Ln(50, <<ReadSt(<<"S">>), Prt(V("S")), Prt(V("S$")), EndS>>)>>,
+            [kind |-> "strread", expect |-> <<5, 7, 9, 5>>, endk |-> "end", code |-> 0, line |-> 0])
+    ELSE IF how = "copy"
+    THEN PS(<<Ln(10, <<DataItems(<<NonNum(3), Num(4)>>)>>),
+              Ln(20, <<ReadSt(<<"S$", "T$">>), Let("T$", V("S$")), Prt(V("T$")), Prt(V("S$"))>>),
+              Ln(30, <<ReadSt(<<"S$">>), Prt(C(1))>>)>>,
+            [kind |-> "strread", expect |-> <<3, 3>>, endk |-> "error", code |-> 4, line |-> 30])
+    ELSE \* "mixed": under DEFSTR the bare name takes the non-numeric item; after DEFSNG the same READ is a Syntax error on the DATA line
+         PS(<<Ln(10, <<DataItems(<<NonNum(8)>>)>>),
+              Ln(20, <<DefStr("$", <<"S">>), ReadSt(<<"S">>), Prt(V("S"))>>),
+              Ln(30, <<[op |-> "RESTORE", n |-> 0, col |-> TRUE], DefStr("!", <<"S">>), ReadSt(<<"S">>), Prt(C(1))>>)>>,
+            [kind |-> "strread", expect |-> <<8>>, endk |-> "error", code |-> 2, line |-> 10])
+StrReadFamily == {StrReadProg(how) : how \in {"defstr", "copy", "mixed"}}
 
 (* ---------------- C21: error trapping and RESUME ---------------- *)
 Fault(f) == CASE f = "e5"   -> [op |-> "ERROR", e |-> C(5), col |-> TRUE]
